@@ -18,6 +18,8 @@ Branch ids of `intersectionLoop`:
   4 `v_len_sq <= EPSILON * max|Y|²`                              → Intersection
   5 stall `prev - v_len_sq <= EPSILON * prev`                    → NoIntersection
   6 continue                                                     → Unknown
+(On branch 1 the Python leaves `search_direction` filled with NaN — `search_direction[:] = None` — the model keeps
+the old direction; the value is never used after a NoIntersection answer.)
 Errors: `indexOOB` (write past `Y[3]`), `assertFail` (`assert prev_v_len_sq >= v_len_sq`), whatever the
 solver raises (`divZero`).
 -/
